@@ -37,7 +37,7 @@ BUDGET_S = {"quick": 150, "thorough": 1500}
 
 FORMS = ("sameline", "nextline", "block", "file", "repo", "linter")
 SPELLINGS = ("full", "prefix", "wild", "upper", "title", "upper-prefix", "upper-wild", "alias", "alias-full", "alias-wild", "alias-upper",
-             "alias-title-full", "alias-upper-wild", "bare")
+             "alias-title-full", "alias-upper-wild", "list-last", "list-first-spaced", "bare")
 PREFIX_SPELLINGS = ("prefix", "wild", "upper-prefix", "upper-wild")  # name the whole linter; every other spelling names one rule
 _ALIAS = {"improper-logging.print-statement": ("print-statements", "print-statements.detected")}  # src/core/rule_aliases.py
 
@@ -193,8 +193,13 @@ def _title(text):
     return "-".join(w[:1].upper() + w[1:] for w in text.split("-"))
 
 
-def spell(rule_id, spelling):
+def spell(rule_id, spelling, lang="py"):
     prefix = rule_id.split(".")[0]
+    if spelling.startswith("list-"):
+        # docs/how-to-ignore-violations.md "Multiple Rules on Same Line": ignore[a,b]; the companion is a linter of another
+        # language, which has nothing to report in this file
+        other = "lbyl" if lang == "rs" else "unwrap-abuse"
+        return f"{other},{rule_id}" if spelling == "list-last" else f"{rule_id}, {other}"
     if spelling == "full":
         return rule_id
     if spelling == "prefix":
@@ -331,7 +336,7 @@ def check(case) -> Case:
                 desc = {"pattern": pat, "where": sec if form == "linter" else carrier}
                 patform = ["exact", "dir/**", "**/name", "*.ext"][pidx] + ("" if form == "linter" else "@" + carrier)
             else:
-                name = spell(named_rule, sp)
+                name = spell(named_rule, sp, lang)
                 if name is None or (sp == "bare" and naming == "other"):
                     continue
                 new_lines, shift, in_scope = apply_directive(src_lines, form, anchor, out_anchor, name, c, placement, span=5 if fam == "dry" else 1)
